@@ -81,16 +81,6 @@ func entries(s string) map[string]int64 {
 	return out
 }
 
-func freeAddr() (string, error) {
-	l, err := net.Listen("tcp", "127.0.0.1:0")
-	if err != nil {
-		return "", err
-	}
-	a := l.Addr().String()
-	l.Close()
-	return a, nil
-}
-
 func takeSnaps(nodes []distsys.ArchetypeResource, down []bool) ([]snap, int) {
 	out := make([]snap, len(nodes))
 	q := 0
@@ -139,14 +129,21 @@ func runCase(k kase) (res result) {
 			res.Err = fmt.Sprintf("panic: %v", r)
 		}
 	}()
+	// reserve all addresses while holding every listener open (closing one before binding the next
+	// may hand the same port out twice), then release them for NewCRDT
 	addrs := make([]string, k.N+1)
+	held := make([]net.Listener, 0, k.N+1)
 	for i := range addrs {
-		a, err := freeAddr()
+		l, err := net.Listen("tcp", "127.0.0.1:0")
 		if err != nil {
 			res.Err = "listen: " + err.Error()
 			return
 		}
-		addrs[i] = a
+		addrs[i] = l.Addr().String()
+		held = append(held, l)
+	}
+	for _, l := range held {
+		l.Close()
 	}
 	ids := make([]tla.Value, k.N)
 	for i := range ids {
